@@ -30,4 +30,27 @@ flows! {
     f_count_map(a: u32) -> (out: u32);
     f_anti_join_unique(a: (u32, u32)) -> (out: u32);
     f_keyed_max(a: (u32, u32)) -> (out: (u32, u32));
+    t_fold(a: u32) -> (out: u32);
+    t_reduce(a: u32) -> (out: u32);
+    t_count(a: u32) -> (out: usize);
+    t_max(a: u32) -> (out: u32);
+    t_min(a: u32) -> (out: u32);
+    t_first(a: u32) -> (out: u32);
+    t_last(a: u32) -> (out: u32);
+    t_limit(a: u32) -> (out: u32);
+    t_sort(a: (u32, u32)) -> (out: (u32, u32));
+    t_enumerate(a: u32) -> (out: (usize, u32));
+    t_unique(a: u32) -> (out: u32);
+    t_chain(a: u32, b: u32) -> (out: u32);
+    t_join(a: (u32, u32), b: (u32, u32)) -> (out: (u32, (u32, u32)));
+    t_cross(a: u32, b: u32) -> (out: (u32, u32));
+    t_anti_join(a: (u32, u32), b: u32) -> (out: (u32, u32));
+    t_cross_singleton(a: u32, b: u32) -> (out: (u32, u32));
+    t_fold_keyed(a: (u32, u32)) -> (out: (u32, u32));
+    t_reduce_keyed(a: (u32, u32)) -> (out: (u32, u32));
+    t_defer(a: u32) -> (out: u32);
+    t_defer_chain(a: u32, b: u32) -> (out: u32);
+    t_defer_count(a: u32) -> (out: usize);
+    t_sort_enumerate_fold(a: u32) -> (out: u32);
+    t_cycle(a: u32) -> (out: u32);
 }
